@@ -493,7 +493,10 @@ func (s *Session) hostInfoFromMap(row map[string]interface{}, host *HostInfo) (*
 			if !ok {
 				return nil, fmt.Errorf(assertErrorMsg, "host_id")
 			}
-			host.hostId = hostId.String()
+			// a NULL host_id is scanned as the zero UUID: the host has no id (isValidPeer rejects it)
+			if hostId != (UUID{}) {
+				host.hostId = hostId.String()
+			}
 		case "release_version":
 			version, ok := value.(string)
 			if !ok {
